@@ -201,4 +201,31 @@ def UBound.pointOk (s : Nat) : UBound → Prop
   | .vec vs => 1 < s ∨ vs.length = 1
   | _ => False
 
+/-! ## repeated transcriptions of one instance
+
+`transcribe()` is called again on the same object by goal programming, homotopy and user code.
+The only thing it keeps between calls that concerns the user functions is the list of values of
+the ensemble-constant parameters that are inlined into the path objective and the path
+constraints (`collocated…py:660-700`). -/
+
+/-- what an instance remembers between two calls -/
+structure TState where
+  inlined : Option (List Rat)
+deriving DecidableEq, Repr
+
+/-- the code: the values inlined by a call are the current ones, whatever was remembered -/
+def transcribeStep (_st : TState) (current : List Rat) : TState × List Rat :=
+  (⟨some current⟩, current)
+
+/-- a variant that refreshes the remembered values only when nothing is remembered yet -/
+def transcribeStepStale (st : TState) (current : List Rat) : TState × List Rat :=
+  match st.inlined with
+  | some old => (st, old)
+  | none => (⟨some current⟩, current)
+
+/-- the values inlined by each of a sequence of calls -/
+def runCalls (step : TState → List Rat → TState × List Rat) : TState → List (List Rat) → List (List Rat)
+  | _, [] => []
+  | st, cur :: rest => (step st cur).2 :: runCalls step (step st cur).1 rest
+
 end RtcVerif.C06
